@@ -92,18 +92,109 @@ type alloc interface {
 	strs([]string) []string
 }
 
-type heapAlloc struct{}
+// Every argument slice gets SPARE CAPACITY (c19Spare elements beyond its length)
+// filled with a canary: code that appends to, or reslices, an argument writes
+// into memory the caller still owns. On the heap the canaries are verified after
+// a pass; in the read-only arena the store faults.
+const c19Spare = 3
 
-func (heapAlloc) u64s(s []uint64) []uint64 { return append([]uint64{}, s...) }
-func (heapAlloc) i32s(s []int32) []int32   { return append([]int32{}, s...) }
-func (heapAlloc) bytes(s []byte) []byte    { return append([]byte{}, s...) }
-func (heapAlloc) str(s string) string      { return string(append([]byte{}, s...)) }
-func (heapAlloc) strs(s []string) []string {
-	r := make([]string, len(s))
+const c19Canary = 0xC5
+
+type heapAlloc struct {
+	checks *[]func() string
+}
+
+func newHeapAlloc() heapAlloc { return heapAlloc{checks: new([]func() string)} }
+
+func (h heapAlloc) watch(f func() string) {
+	if h.checks != nil {
+		*h.checks = append(*h.checks, f)
+	}
+}
+
+// spareIntact reports the first argument slice whose spare capacity was written to.
+func (h heapAlloc) spareIntact() string {
+	if h.checks == nil {
+		return ""
+	}
+	for _, f := range *h.checks {
+		if s := f(); s != "" {
+			return s
+		}
+	}
+	return ""
+}
+
+func (h heapAlloc) u64s(s []uint64) []uint64 {
+	r := make([]uint64, len(s)+c19Spare)
+	copy(r, s)
+	for i := len(s); i < len(r); i++ {
+		r[i] = 0xC5C5C5C5C5C5C5C5
+	}
+	n := len(s)
+	h.watch(func() string {
+		for i := n; i < len(r); i++ {
+			if r[i] != 0xC5C5C5C5C5C5C5C5 {
+				return fmt.Sprintf("spare capacity of a []uint64 argument of length %d was written to (element %d beyond its length now %#x)", n, i-n, r[i])
+			}
+		}
+		return ""
+	})
+	return r[:n]
+}
+func (h heapAlloc) i32s(s []int32) []int32 {
+	r := make([]int32, len(s)+c19Spare)
+	copy(r, s)
+	for i := len(s); i < len(r); i++ {
+		r[i] = -0x3a3a3a3b
+	}
+	n := len(s)
+	h.watch(func() string {
+		for i := n; i < len(r); i++ {
+			if r[i] != -0x3a3a3a3b {
+				return fmt.Sprintf("spare capacity of a []int32 argument of length %d was written to", n)
+			}
+		}
+		return ""
+	})
+	return r[:n]
+}
+func (h heapAlloc) bytes(s []byte) []byte {
+	r := make([]byte, len(s)+c19Spare)
+	copy(r, s)
+	for i := len(s); i < len(r); i++ {
+		r[i] = c19Canary
+	}
+	n := len(s)
+	h.watch(func() string {
+		for i := n; i < len(r); i++ {
+			if r[i] != c19Canary {
+				return fmt.Sprintf("spare capacity of a []byte argument of length %d was written to", n)
+			}
+		}
+		return ""
+	})
+	return r[:n]
+}
+func (heapAlloc) str(s string) string { return string(append([]byte{}, s...)) }
+func (h heapAlloc) strs(s []string) []string {
+	r := make([]string, len(s)+c19Spare)
 	for i, x := range s {
 		r[i] = string(append([]byte{}, x...))
 	}
-	return r
+	for i := len(s); i < len(r); i++ {
+		r[i] = "\xc5canary"
+	}
+	n := len(s)
+	h.watch(func() string {
+		for i := n; i < len(r); i++ {
+			if r[i] != "\xc5canary" {
+				return fmt.Sprintf("spare capacity of a []string argument of length %d was written to", n)
+			}
+		}
+		return ""
+	})
+	return r[:n]
 }
 
 // arena hands out memory from one anonymous mapping that is later made read-only.
@@ -134,30 +225,30 @@ func (a *arena) take(n int) unsafe.Pointer {
 }
 
 func (a *arena) u64s(s []uint64) []uint64 {
-	r := unsafe.Slice((*uint64)(a.take(8*len(s))), len(s))
+	r := unsafe.Slice((*uint64)(a.take(8*(len(s)+c19Spare))), len(s)+c19Spare)
 	copy(r, s)
-	return r
+	return r[:len(s)] // spare capacity lies inside the read-only mapping too
 }
 func (a *arena) i32s(s []int32) []int32 {
-	r := unsafe.Slice((*int32)(a.take(4*len(s))), len(s))
+	r := unsafe.Slice((*int32)(a.take(4*(len(s)+c19Spare))), len(s)+c19Spare)
 	copy(r, s)
-	return r
+	return r[:len(s)]
 }
 func (a *arena) bytes(s []byte) []byte {
-	r := unsafe.Slice((*byte)(a.take(len(s))), len(s))
+	r := unsafe.Slice((*byte)(a.take(len(s)+c19Spare)), len(s)+c19Spare)
 	copy(r, s)
-	return r
+	return r[:len(s)]
 }
 func (a *arena) str(s string) string {
 	b := a.bytes([]byte(s))
 	return unsafe.String(unsafe.SliceData(b), len(s))
 }
 func (a *arena) strs(s []string) []string {
-	r := unsafe.Slice((*string)(a.take(16*len(s))), len(s))
+	r := unsafe.Slice((*string)(a.take(16*(len(s)+c19Spare))), len(s)+c19Spare)
 	for i, x := range s {
 		r[i] = a.str(x)
 	}
-	return r
+	return r[:len(s)]
 }
 func (a *arena) protect() {
 	if err := syscall.Mprotect(a.mem, syscall.PROT_READ); err != nil {
@@ -481,8 +572,12 @@ func c19Footprint(c *mc.Ctx) (digest string) {
 	debug.SetPanicOnFault(true)
 	var all [][][]string
 	for set := 0; set < c19InputSets; set++ {
-		heap := c19Build(set, heapAlloc{})
+		ha := newHeapAlloc()
+		heap := c19Build(set, ha)
 		fwd, retained := c19ForwardKeep(alpha, heap)
+		if sp := ha.spareIntact(); sp != "" {
+			c.Fail(5<<50|int64(set)<<40, "spare", "spare", c19Case{Input: set, Note: "forward pass over the whole alphabet"}, sp, "spare capacity of every argument untouched")
+		}
 		all = append(all, fwd)
 		for _, r := range retained {
 			c.Fail(3<<50|int64(set)<<40|int64(r.Call)<<20|int64(r.Variant), "retained", "retained", c19Case{Call: alpha[r.Call].Name, Variant: r.Variant, Input: set}, "value returned earlier now reads "+clipS(r.Now), "value as returned: "+clipS(r.Then))
@@ -718,6 +813,13 @@ func c19Judge(kind string, raw json.RawMessage) (string, string, error) {
 		return -1
 	}
 	switch kind {
+	case "spare":
+		ha := newHeapAlloc()
+		c19ForwardKeep(alpha, c19Build(cs.Input, ha))
+		if sp := ha.spareIntact(); sp != "" {
+			return sp, "spare capacity of every argument untouched", nil
+		}
+		return "spare capacity of every argument untouched", "spare capacity of every argument untouched", nil
 	case "retained":
 		ci := find(cs.Call)
 		if ci < 0 {
